@@ -17,7 +17,7 @@ import (
 
 func init() {
 	vc.Register(&vc.Check{ID: "C06", Level: "model_checking", Run: run, Replay: replay, QuickSec: 170, ThoroSec: 1500,
-		Rule:   "real Reader.ReadDocument (-> chipauth.DoChipAuth, pace CAM step) against the independent chip. Conforming side, all enumerated: 11 curves x {named, explicit parameters} x {3DES, AES-128/192/256} x key arrangement {one key without id, one key with id 1, one key with id 256, two keys with ids 1/2 and the info naming the second, two keys with ids 2/258 (equal low octet), no ChipAuthenticationInfo (3DES inferred, MSE:Set KAT)} x access control {BAC, PACE-GM}; terminal ephemeral scalar alphabet {2, n-2, pattern, leading-zero shared x} on every curve. Oracle: success reported, the chip switched keys and authenticated a command under them, two further protected reads succeed with equal restarted counters. Impostor side (chip without the private key): answers 9000 to MSE/GA, then to the protected probe every strategy of {own (wrong-key) session response, SM-formatted 9000 with an empty / 1-byte / zero / absent MAC, bare 9000, bare 6A82, garbage, replay of the old session's last response, command echoed, response under the old session keys}; CAM impostor: chip-authentication data computed with a non-certified key => never reported successful. Histories through the chipauth API (BAC, then DoChipAuth; one reused ChipAuth object and a new one per run): every sequence of up to 3 (thorough 4) runs over {genuine chip, key-less clone replaying the recorded first response under the new keys, key-less clone under its own keys}. states = reads, transitions = exchanges; distinct_nontrivial = distinct (configuration, scalar/strategy, outcome)",
+		Rule:   "real Reader.ReadDocument (-> chipauth.DoChipAuth, pace CAM step) against the independent chip. Conforming side, all enumerated: 11 curves x {named, explicit parameters} x {3DES, AES-128/192/256} x key arrangement {one key without id, one key with id 1, one key with id 0, one key with id 256, two keys with ids 1/2 and the info naming the second, two keys with ids 2/258 (equal low octet), no ChipAuthenticationInfo (3DES inferred, MSE:Set KAT) with one key without id / one key with id / two keys with ids} x access control {BAC, PACE-GM}; terminal ephemeral scalar alphabet {2, n-2, pattern, leading-zero shared x} on every curve. Oracle: success reported, the chip switched keys and authenticated a command under them, two further protected reads succeed with equal restarted counters. Impostor side (chip without the private key): answers 9000 to MSE/GA, then to the protected probe every strategy of {own (wrong-key) session response, SM-formatted 9000 with an empty / 1-byte / zero / absent MAC, bare 9000, bare 6A82, garbage, replay of the old session's last response, command echoed, response under the old session keys}; CAM impostor: chip-authentication data computed with a non-certified key => never reported successful. Histories through the chipauth API (BAC, then DoChipAuth; one reused ChipAuth object and a new one per run): every sequence of up to 3 (thorough 4) runs over {genuine chip, key-less clone replaying the recorded first response under the new keys, key-less clone under its own keys}. states = reads, transitions = exchanges; distinct_nontrivial = distinct (configuration, scalar/strategy, outcome)",
 		Assume: []string{"refchip CA follows ICAO 9303-11 §6.2 / BSI TR-03110 (ECKA with FE2OS secret, key switch after the response to GENERAL AUTHENTICATE / MSE:Set KAT, counter restart)", "discrete log not searched"}})
 }
 
@@ -62,6 +62,9 @@ func config(cc caCase) perso.Config {
 		// the first key has no info; the info names the second key
 		cfg.CA = []perso.CASpec{{Curve: cc.Curve, Explicit: cc.Explicit, Cipher: cc.Cipher, KeyID: &one, NoInfo: true},
 			{Curve: cc.Curve, Explicit: cc.Explicit, Cipher: cc.Cipher, KeyID: &two, Clone: clone}}
+	case "id0":
+		zero := 0
+		cfg.CA = []perso.CASpec{{Curve: cc.Curve, Explicit: cc.Explicit, Cipher: cc.Cipher, KeyID: &zero, Clone: clone}}
 	case "id256":
 		big := 256
 		cfg.CA = []perso.CASpec{{Curve: cc.Curve, Explicit: cc.Explicit, Cipher: cc.Cipher, KeyID: &big, Clone: clone}}
@@ -70,6 +73,13 @@ func config(cc caCase) perso.Config {
 		lo, hi := 2, 258
 		cfg.CA = []perso.CASpec{{Curve: cc.Curve, Explicit: cc.Explicit, Cipher: cc.Cipher, KeyID: &lo, NoInfo: true},
 			{Curve: cc.Curve, Explicit: cc.Explicit, Cipher: cc.Cipher, KeyID: &hi, Clone: clone}}
+	case "noinfo-two":
+		// no ChipAuthenticationInfo at all and TWO keys with identifiers: the suite is inferred (3DES) and the chip needs
+		// the key reference because the key is ambiguous
+		cfg.CA = []perso.CASpec{{Curve: cc.Curve, Explicit: cc.Explicit, Cipher: 1, KeyID: &one, NoInfo: true, Clone: clone},
+			{Curve: cc.Curve, Explicit: cc.Explicit, Cipher: 1, KeyID: &two, NoInfo: true}}
+	case "noinfo-id":
+		cfg.CA = []perso.CASpec{{Curve: cc.Curve, Explicit: cc.Explicit, Cipher: 1, KeyID: &one, NoInfo: true, Clone: clone}}
 	case "noinfo":
 		cfg.CA = []perso.CASpec{{Curve: cc.Curve, Explicit: cc.Explicit, Cipher: 1, NoInfo: true, Clone: clone}}
 	}
@@ -269,7 +279,7 @@ func run(c *vc.Ctx) {
 		for _, ex := range []bool{false, true} {
 			for _, pace := range []bool{false, true} {
 				for cipher := 1; cipher <= 4; cipher++ {
-					for _, arr := range []string{"noid", "id", "two", "id256", "two-ids-2-and-258"} {
+					for _, arr := range []string{"noid", "id", "id0", "two", "id256", "two-ids-2-and-258"} {
 						if !c.Mine() {
 							continue
 						}
@@ -282,6 +292,8 @@ func run(c *vc.Ctx) {
 				}
 				if c.Mine() {
 					do(sec1, caCase{Curve: curve, Explicit: ex, Cipher: 1, Arr: "noinfo", PACE: pace})
+					do(sec1, caCase{Curve: curve, Explicit: ex, Cipher: 1, Arr: "noinfo-id", PACE: pace})
+					do(sec1, caCase{Curve: curve, Explicit: ex, Cipher: 1, Arr: "noinfo-two", PACE: pace})
 				}
 			}
 		}
